@@ -6,6 +6,7 @@ import random
 from .common import case, guarded, ordinal_instance, strict, rand_perm
 
 ID = "C13"
+COVER_FILES = ['properties/subdomains/ordinal/singlepeaked/single_peaked_tree.py']
 RULE = ("exhaustive: m = 2; every non-empty set of distinct strict orders over 3 alternatives (both storage orders); "
         "every set of <= 3 (quick) / <= 4 (thorough) distinct strict orders over 4 alternatives, stored in increasing "
         "and in decreasing lexicographic order (thorough: also all sets of 5, one storage order); all sets of <= 2 orders over three non-contiguous id sets of size 4; "
@@ -15,22 +16,27 @@ RULE = ("exhaustive: m = 2; every non-empty set of distinct strict orders over 3
         "vote); verdict compared with the reference c13.decide, which enumerates all (m-1)^(m-1) parent assignments. "
         "planted m in 7..30, n <= 30: votes grown from a random tree which itself passes c13.check, so the verdict "
         "must be True and the returned edge list must pass c13.check; the same sizes with noise votes: only 'True => "
-        "valid tree'. non-trivial = at least 4 alternatives and at least 2 distinct orders")
+        "valid tree' through the checker. On EVERY case the verdict is also compared with the mirror of the algorithm "
+        "(Model/TreeAlgo.v, ops c13.algo / c13.algo2 = two different instantiations of the unspecified set iteration "
+        "orders), which is proved to return exactly spt_decide's verdict at every size (trick_decides), so the "
+        "large noisy cases are judged exactly as well. non-trivial = at least 4 alternatives and at least 2 distinct "
+        "orders")
 EXHAUSTIVE = {"quick": "m = 2; all sets of distinct strict orders for m = 3 (63 sets x 2 storage orders); all sets of "
                        "1..3 distinct orders for m = 4 x 2 storage orders; m = 5: identity + each other order",
               "thorough": "m = 2; all sets of distinct strict orders for m = 3; all sets of 1..4 distinct orders for "
                           "m = 4 x 2 storage orders and all sets of 5 orders (one storage order); m = 5: identity "
                           "+ each other order, identity + each pair of other orders"}
-TRUSTED = ["not modelled: Trick's elimination loop in single_peaked_tree.py (is_single_peaked_on_tree, get_B, "
-           "get_bottom_alts, restrict_preferences) and OrdinalInstance.flatten_strict; the implementation is compared "
-           "with the proved reference decider for m <= 7 (8 in thorough) and its returned tree goes through the proved checker at "
-           "every size; a wrong False on a large profile that is single-peaked on a tree would only be seen on the "
-           "planted positives (m <= 30)"]
+TRUSTED = ["the mirror Model/TreeAlgo.v of is_single_peaked_on_tree / get_B / get_bottom_alts / restrict_preferences is "
+           "hand-written; it is proved sound, complete and terminating for every admissible iteration order of the two "
+           "Python sets, and tied to the code by comparing verdicts on every case (edge lists are not compared, they "
+           "depend on set order; the implementation's list goes through the proved checker). "
+           "OrdinalInstance.flatten_strict is not modelled (strict orders are passed as singleton classes)"]
 ASSUMPTIONS = ["profiles of strict complete orders (data_type soc) over >= 2 alternatives with distinct positive "
                "integer ids; alternatives_name lists exactly the alternatives of the orders"]
 TIMEOUT_S = 10.0
 CHUNK = 25
-THEOREMS_FOR_OP = {"c13.decide": "spt_decide_correct, spt_check_correct", "c13.check": "spt_check_correct"}
+THEOREMS_FOR_OP = {"c13.decide": "spt_decide_correct, spt_check_correct, trick_decides",
+                   "c13.check": "spt_check_correct, trick_decides", "c13.witness": "spt_check_correct, trick_decides"}
 
 
 # ---------------------------------------------------------------------------------------------------------------
@@ -231,6 +237,8 @@ def _plan(c):
     if c["op"] == "c13.decide":
         plan.append("decide")
     plan.append("check")
+    plan.append("algo")
+    plan.append("algo2")
     if c["tags"].get("planted_tree"):
         plan.append("planted")
     if len(c["payload"][0]) <= 4:
@@ -258,6 +266,10 @@ def oracle_requests(c, r):
             reqs.append(("c13.check_slow", [alts, orders, edges]))
         elif lb == "planted":
             reqs.append(("c13.check", [alts, orders, c["tags"]["planted_tree"]]))
+        elif lb == "algo":
+            reqs.append(("c13.algo", [alts, orders]))
+        elif lb == "algo2":
+            reqs.append(("c13.algo2", [alts, orders]))
     return reqs
 
 
@@ -276,6 +288,21 @@ def judge(c, r, mres):
         return {"kind": "broken-correspondence", "reason": "spt_checkf and spt_check disagree"}
     if "decide_slow" in m and m["decide_slow"] != m["decide"]:
         return {"kind": "broken-correspondence", "reason": "spt_decide and spt_decide_slow disagree"}
+    # the mirror of the algorithm (Model/TreeAlgo.v), two instantiations of the unspecified set orders
+    for lb in ("algo", "algo2"):
+        a = m[lb]
+        if a[0] != 0:
+            return {"kind": "broken-correspondence", "reason": "mirror %s ran out of fuel (trick_terminates)" % lb}
+        av, aedges, achk = a[1]
+        if av == 1 and achk != 1:
+            return {"kind": "broken-correspondence",
+                    "reason": "mirror %s answers True with an edge list rejected by spt_check (trick_sound)" % lb}
+        if "decide" in m and av != m["decide"]:
+            return {"kind": "broken-correspondence",
+                    "reason": "mirror %s verdict %s, reference %s (trick_sound / trick_complete)" % (lb, av, m["decide"])}
+        if av != verdict:
+            return {"kind": "mismatch", "theorem": "trick_sound, trick_complete",
+                    "reason": "verdict %s, mirror of the algorithm (%s) says %s" % (bool(verdict), lb, bool(av))}
     if "decide" in m:
         if m.get("planted") == 1 and m["decide"] != 1:
             return {"kind": "broken-correspondence", "reason": "spt_decide rejects a profile with a checked witness"}
@@ -302,13 +329,21 @@ def stats(c, r, m):
     v = "?"
     if isinstance(r, list) and r and r[0] == 0:
         v = "T" if r[1][0] == 1 else "F"
+    mirror = []
+    try:
+        a1, a2 = d["algo"][1], d["algo2"][1]
+        mirror.append("mirror verdicts (first/last, fwd/bwd) %s" % ("agree" if a1[0] == a2[0] else "DIFFER"))
+        if a1[0] == 1:
+            mirror.append("mirror edge lists %s" % ("equal" if a1[1] == a2[1] else "differ (both valid)"))
+    except Exception:
+        mirror.append("mirror error")
     if c["op"] == "c13.decide":
         ref = "T" if d["decide"] == 1 else "F"
-        return ["decide m=%d ref=%s" % (mm, ref), "decide n=%s ref=%s" % (n if n <= 4 else ">4", ref)]
+        return ["decide m=%d ref=%s" % (mm, ref), "decide n=%s ref=%s" % (n if n <= 4 else ">4", ref)] + mirror
     size = "7-15" if mm <= 15 else "16-30"
     if c["op"] == "c13.check":
-        return ["planted m=%s verdict=%s witness=%s" % (size, v, "ok" if d["check"] == 1 else "bad")]
-    return ["noisy-large m=%s verdict=%s%s" % (size, v, " witness=ok" if (v == "T" and d["check"] == 1) else "")]
+        return ["planted m=%s verdict=%s witness=%s" % (size, v, "ok" if d["check"] == 1 else "bad")] + mirror
+    return ["noisy-large m=%s verdict=%s%s" % (size, v, " witness=ok" if (v == "T" and d["check"] == 1) else "")] + mirror
 
 
 def describe(c):
